@@ -23,6 +23,9 @@ var (
 	removeGEREventSignature = crypto.Keccak256Hash([]byte("UpdateRemovalHashChainValue(bytes32,bytes32)"))
 )
 
+// maxBlocksPerLogsQuery bounds the block range of a single logs query when catching up
+const maxBlocksPerLogsQuery = uint64(100)
+
 type downloaderPP struct {
 	*sync.EVMDownloaderImplementation
 	l2GERManager   *globalexitrootmanagerl2sovereignchain.Globalexitrootmanagerl2sovereignchain
@@ -89,11 +92,19 @@ func (d *downloaderPP) Download(ctx context.Context, fromBlock uint64, downloade
 		default:
 		}
 
-		// Wait for new blocks before processing
-		fromBlock = d.WaitForNewBlocks(ctx, fromBlock)
-		for _, block := range d.GetEventsByBlockRange(ctx, fromBlock, fromBlock) {
-			downloadedCh <- *block
+		// Wait until there is at least one block that has not been examined yet, then process
+		// every block up to the new tip: the tip can advance by more than one block between two polls
+		lastBlock := d.WaitForNewBlocks(ctx, fromBlock-1)
+		if lastBlock < fromBlock {
+			continue
 		}
+		for from := fromBlock; from <= lastBlock; from += maxBlocksPerLogsQuery {
+			to := min(from+maxBlocksPerLogsQuery-1, lastBlock)
+			for _, block := range d.GetEventsByBlockRange(ctx, from, to) {
+				downloadedCh <- *block
+			}
+		}
+		fromBlock = lastBlock + 1
 	}
 }
 
